@@ -46,7 +46,7 @@ func run(c *hl.Ctx) error {
 	r := c.Rand()
 	g := &lay.Gen{R: r}
 	var jobs []lay.Job
-	nProg := lay.DevN(c.Pick(360, 30000))
+	nProg := lay.DevN(c.Pick(360, 8000))
 	for i := 0; i < nProg; i++ {
 		var src, tag string
 		switch i % 6 {
@@ -68,8 +68,12 @@ func run(c *hl.Ctx) error {
 			}
 		}
 	}
-	res := lay.RunAll(jobs, runtime.NumCPU())
+	res := lay.RunAll(jobs, runtime.NumCPU(), lay.QuickBudget(c.Quick()), 32)
 	for i, rr := range res {
+		if rr == nil {
+			c.Count("budget:not-run")
+			continue
+		}
 		c.Emit(lay.GeoCase(rr))
 		c.Count("seq:" + jobs[i].Tag)
 		if rr.Compile != "ok" {
